@@ -373,6 +373,12 @@ func (sc *scenario) evaluate() {
 		}
 		last := d.specs[len(d.specs)-1]
 		E := sc.Epochs[last.setIndex]
+		for _, sp := range d.specs {
+			if sp.Prod != last.Prod {
+				c.Count("packs_mixing_producers", 1)
+				break
+			}
+		}
 		want := d.payload >= E.S.ZipMin
 		c.Count("packs_compression_checked", 1)
 		if d.payload == E.S.ZipMin {
